@@ -194,7 +194,7 @@ func (f *protectedHandshakeFlight) verifyServerIdentity() error {
 			certAlgs = f.cfg.LocalSignatureSchemes
 		}
 		chains, err = dtlscrypto.VerifyServerCert(
-			f.peerCertificates, f.cfg.RootCAs, f.cfg.ServerName, certAlgs,
+			f.peerCertificates, f.cfg.RootCAs, f.cfg.ServerNameToVerify(), certAlgs,
 		)
 		if err != nil {
 			return certificateVerificationError(err)
